@@ -337,3 +337,55 @@ def enforceQ (sh : Shape) (s : St) (req : List String) : Except Err Bool :=
   enforce { kind := .allowOverride, rArity := sh.arity, pArity := sh.arity } (matcher sh s.links) s.pol.p req
 
 end Casbin.Enf
+
+/-! ## RBAC query API (`enforcer.py`) -/
+namespace Casbin.Enf
+open Casbin.Policy
+
+/-- one round of the inner `for r in roles: if r not in res: res.append(r); queue.append(r)` -/
+def visitRoles : List String → List String → List String → List String × List String
+  | [], queue, res => (queue, res)
+  | r :: rs, queue, res =>
+    if res.contains r then visitRoles rs queue res else visitRoles rs (queue ++ [r]) (res ++ [r])
+
+/-- `get_implicit_roles_for_user`: the `while queue:` loop with explicit fuel; `none` = fuel exhausted (never
+    happens with `fuel ≥` number of names + 1, checked at run time by the driver) -/
+def implicitLoop (g : Graph) : Nat → List String → List String → Option (List String)
+  | _, [], res => some res
+  | 0, _ :: _, _ => none
+  | fuel + 1, n :: queue, res =>
+    let (q', res') := visitRoles (succs g n) queue res
+    implicitLoop g fuel q' res'
+
+def namesOf (g : Graph) : List String := (g.map (·.1) ++ g.map (·.2)).eraseDups
+
+def implicitRoles (store : List Rule) (name : String) (dom : Option String) : Option (List String) :=
+  let g := edgesOf store dom
+  implicitLoop g ((namesOf g).length + 2) [name] []
+
+/-- `get_permissions_for_user(user)` = `get_filtered_policy(0, user)` (rules whose first field is the user) -/
+def permissionsFor (p : List Rule) (user : String) : List Rule := p.filter fun r => r[0]? == some user
+
+/-- `get_implicit_permissions_for_user(user)` (no domain): permissions of the user and of every implicit role -/
+def implicitPermissions (s : St) (user : String) : Option (List Rule) :=
+  (implicitRoles s.links.g user none).map fun roles => (user :: roles).flatMap (permissionsFor s.pol.p)
+
+/-- keep the first occurrence of every string (`array_remove_duplicates`) -/
+def dedupS : List String → List String
+  | [] => []
+  | x :: xs => x :: (dedupS xs).filter (· != x)
+
+/-- `get_values_for_field_in_policy` on well-sized rules -/
+def fieldValues (l : List Rule) (idx : Nat) : List String := dedupS (l.filterMap (·[idx]?))
+
+/-- `get_implicit_users_for_permission(*permission)` for the RBAC shape: the candidate subjects are the subjects of
+    `g` and `p` that are not a role (second field of a `g` rule); kept when `enforce` allows -/
+def implicitUsersForPermission (s : St) (perm : List String) : List String :=
+  let subjects := dedupS (fieldValues s.pol.g 0 ++ fieldValues s.pol.p 0)
+  let inherit := fieldValues s.pol.g 1
+  (subjects.filter fun x => !inherit.contains x).filter fun u =>
+    match enforceQ .rbac s (u :: perm) with
+    | .ok true => true
+    | _ => false
+
+end Casbin.Enf
